@@ -2,6 +2,7 @@
    Property theorems only (proved in Clnt/ClntProofs.v and Recv/RecvProofs.v). *)
 From Coq Require Import NArith List Bool.
 From V9 Require Shape.ShapeLib Shape.PClient.
+From V9 Require Race.Facts Shape.PLocks.
 From V9 Require Import Lib.GoSem Lib.Bytes Gen.Consts Clnt.Model Clnt.ClntProofs Recv.Recv Recv.RecvProofs.
 Import ListNotations.
 
@@ -89,3 +90,10 @@ Print Assumptions C10_source_failure_order.
 Theorem C10_source_failure_paths : ShapeLib.client_failure_paths = true.
 Proof. exact PClient.client_failure_paths_ok. Qed.
 Print Assumptions C10_source_failure_paths.
+
+(* ---- a modelling assumption about the CURRENT source (Gen/LockFacts.v), re-checked on every run ---- *)
+(* the steps the models treat as atomic are critical sections in the source: every access to a mutex-protected
+   field (request lists and tag groups, flush chains, request status, the client's pending list and error) holds its mutex *)
+Theorem C10_source_critical_sections : V9.Race.Facts.violations = [].
+Proof. exact V9.Shape.PLocks.sites_comply_ok. Qed.
+Print Assumptions C10_source_critical_sections.
